@@ -825,7 +825,8 @@ def map_sem_inv(nc):
             return []
         m: SemV = sh["$msem"]
         return [("MS.map-slots-conserved", z3.And(z3.Not(m.v.inf), m.v.k >= 0, m.g >= 0, m.P >= 0, m.out >= 0, m.v.k + m.g + m.out == nc), ("C05",)),
-                ("MS.at-most-num_concurrent-of-the-call-hold-a-slot", m.out <= nc, ("C05",))]
+                ("MS.at-most-num_concurrent-of-the-call-hold-a-slot", m.out <= nc, ("C05",)),
+                ("MS.consumer-waits-only-when-all-slots-are-out", z3.Implies(m.P > 0, z3.Or(m.v.k == 0, m.g > 0)), ("C05",))]
 
     return extra
 
@@ -964,6 +965,15 @@ def u_arg_consumer(ip: Interp, th: ConsumerTheory):
             ip.require(s, "lazy:at-most-one-element-pulled-ahead", s.loc["$pulled"].t == s.loc["$started"].t + s.loc["$skipped"].t + 1, ("C05",))
 
     th.before_observe = before_observe
+    # work conservation (lemma over the invariant): whenever the consumer is parked at its own semaphore and no grant is
+    # in flight (the loop is idle), exactly num_concurrent tasks of the call hold a slot
+    lem = th.initial(me_kind=K_MAP)
+    msym = SemV(ExtV(False, fresh("l_v", I)), fresh("l_g", I), fresh("l_P", I), fresh("l_out", I), fresh("mapsem", Ref))
+    msym.tokarr = "mtok"
+    lem.sh["$msem"] = msym
+    for _n, f, _p in th.extra_inv(lem.sh):
+        lem.assume(f)
+    ip.require(lem, "lemma:idle-and-parked-at-the-map-semaphore=>exactly-num_concurrent-tasks-of-the-call-running", z3.Implies(z3.And(msym.P > 0, msym.g == 0), msym.out == nc), ("C05",))
     for s, v in run_body(ip, th, st, P_T + "_arg_consumer", a):
         th.set_ghost(s, "loc", me, z3.IntVal(L_DONE))
         th.check_point(s, "thread-end")
